@@ -333,7 +333,9 @@ def neg(a):
     if a.term is not None:
         r = r.with_term(tneg(a.term))
     if a.sym is not None and not a.is_const():
-        r.sym = None
+        # keep the ripple-carry result only when every bit came out as a constant or a literal (e.g. the lowest set bit is known)
+        if r.sym is None or any(b is None for b in r.sym):
+            r.sym = None
         r.negof = a
     return r, ov
 
@@ -584,6 +586,16 @@ def cmp(op, a, b):
     else:
         raise ValueError(op)
     r = AInt.boolean(res)
+    if res is None and op in ('Eq', 'Ne'):
+        # (word with a single undetermined bit) ==/!= 0: the boolean is that bit (or its complement)
+        for u, z in ((a, b), (b, a)):
+            if z.is_const() and z.lo == 0 and u.sym is not None:
+                S = u.symbits()
+                free = [x for x in S if x != 0]
+                if len(free) == 1 and isinstance(free[0], tuple):
+                    x = free[0]
+                    r = AInt(1, False, 0, 1, sym=[x if op == 'Ne' else (x[0], x[1], x[2], not x[3])])
+                break
     r.taint = t
     return r
 
